@@ -53,8 +53,17 @@ ValDiag(exp, got) ==
 ObsNames(e) == {e.attrs[i].n : i \in DOMAIN e.attrs}
 NoRec == [none |-> TRUE]
 
+\* C19: the same history was also run under the default configuration (driver, cfg.vsdef); what the two runs show
+\* after reopening - one canonical string per visible attribute - must be identical
+DefItems(e) ==
+  IF "defsig" \in DOMAIN e /\ e.defsig # e.sig
+  THEN LET D == {e.defsig[i] : i \in DOMAIN e.defsig}  C == {e.sig[i] : i \in DOMAIN e.sig}
+       IN <<[diag |-> "content-differs-from-default-configuration", collides |-> FALSE,
+             detail |-> [onlydefault |-> D \ C, onlyconfigured |-> C \ D]]>>
+  ELSE <<>>
+
 \* sequence of failing items of an observation; <<>> = accepted
-ObserveItems(e) ==
+ModelItems(e) ==
   IF e.open # "ok" THEN <<[diag |-> "file-does-not-open", detail |-> e.open, collides |-> FALSE]>>
   ELSE IF ~e.found THEN <<[diag |-> "object-missing", detail |-> "", collides |-> FALSE]>>
   ELSE IF e.attrres # "ok" THEN <<[diag |-> "attribute-list-error", detail |-> e.attrres, collides |-> FALSE]>>
@@ -73,6 +82,8 @@ ObserveItems(e) ==
        \o SetToSeq(extra,   LAMBDA i : Item("extra-name", e.attrs[i].n, NoRec, e.attrs[i].val))
        \o SetToSeq(wrong,   LAMBDA i : Item(ValDiag(map[e.attrs[i].n], e.attrs[i].val), e.attrs[i].n,
                                               map[e.attrs[i].n], e.attrs[i].val))
+
+ObserveItems(e) == ModelItems(e) \o DefItems(e)
 
 -----------------------------------------------------------------------------
 Bump(f) == [stats EXCEPT ![f] = @ + 1]
